@@ -364,9 +364,8 @@ impl ForwardedStreamSink {
             return Ok(data);
         }
 
-        let chunk_size = data.len();
         let unsent = state.sink.write(data.slice(..to_send))?;
-        state.sent_bytes += (chunk_size - unsent.len()) as u64;
+        state.sent_bytes += (to_send - unsent.len()) as u64;
 
         if Some(state.sent_bytes) == state.body_length {
             assert!(unsent.is_empty());
@@ -440,11 +439,12 @@ impl ForwardedStreamSink {
             std::cmp::min(data.len() as u64, state.remaining_chunk_size.unwrap()) as usize;
         let unsent = state.sink.write(data.slice(..to_send))?;
 
+        let sent = to_send - unsent.len();
         let remaining = state
             .remaining_chunk_size
             .take()
             .unwrap()
-            .saturating_sub(to_send as u64);
+            .saturating_sub(sent as u64);
         log_id!(
             trace,
             self.id,
@@ -454,6 +454,7 @@ impl ForwardedStreamSink {
         );
         if remaining > 0 {
             state.remaining_chunk_size = Some(remaining);
+            self.state = SinkState::TransferringBodyChunked(state);
         } else {
             self.state = SinkState::WaitingChunkSuffix(SinkWaitingChunkSuffix {
                 buffer: BytesMut::with_capacity(ENCODED_CHUNK_SUFFIX.len()),
@@ -461,9 +462,10 @@ impl ForwardedStreamSink {
                 sink: state.sink,
             });
         }
-        self.fake_unsent = !data.is_empty();
+        // what is left is either held back by the sink (wait for it), or just not parsed yet
+        self.fake_unsent = unsent.is_empty() && data.len() > sent;
 
-        Ok(data.split_off(to_send - unsent.len()))
+        Ok(data.split_off(sent))
     }
 
     fn on_encoded_chunk_suffix(&mut self, mut data: Bytes) -> io::Result<Bytes> {
